@@ -152,6 +152,15 @@ def check_writes(
                         if cls and not is_fresh_expr(d.value):
                             verdict = cls
                             why = f"`{w.target.id}` aliases `{unparse(d.value)}` (line {d.node.lineno}), a collection of a {cls}"
+                    elif d.kind in ("assign", "walrus") and isinstance(d.value, ast.Call) and isinstance(d.value.func, ast.Attribute):
+                        # result of a method of a protected object that hands out its own (stored) collection
+                        base_t = mt.type_of(d.value.func.value)
+                        bh = top_heads(base_t) if base_t else set()
+                        cls = prot.classify(bh)
+                        if cls and _hands_out_own_state(repo, bh, d.value.func.attr):
+                            verdict = cls
+                            why = (f"`{w.target.id}` is the collection returned by `{unparse(d.value.func)}()` (line {d.node.lineno}), "
+                                   f"which that {cls} keeps for itself")
             key = (qualname_of(w.node), node_text(w.node, 90))
             if verdict is None:
                 check.ob(rule, w.node, f"{w.kind} {w.chain}.{w.detail}", True, why, nontrivial=why != "local")
@@ -169,6 +178,50 @@ def check_writes(
                 check.ob(rule, w.node, f"{w.kind} {w.chain}.{w.detail} :: {node_text(w.node, 70)}", False,
                          f"writes a {verdict}: {why}")
     return n
+
+
+_hands_out_cache: dict[tuple[str, str], bool] = {}
+
+
+def _hands_out_own_state(repo: Repo, heads: set[str], method: str) -> bool:
+    """Does `method` of (one of) the classes return an object it also keeps in self.<attr>?"""
+    from sa.resolve import ClassIndex
+
+    classes = ClassIndex(repo)
+    for h in heads:
+        key = (h, method)
+        if key in _hands_out_cache:
+            if _hands_out_cache[key]:
+                return True
+            continue
+        ci = classes.by_full.get(h)
+        res = False
+        if ci is not None:
+            found = classes.find_method(ci, method)
+            if found is not None:
+                m = found[1]
+                kept: set[str] = set()
+                for n in ast.walk(m):
+                    if isinstance(n, ast.Assign):
+                        names = [t for t in n.targets if isinstance(t, ast.Name)]
+                        stores_self = any(
+                            (isinstance(t, ast.Attribute) and unparse(t.value) == "self")
+                            or (isinstance(t, ast.Subscript) and isinstance(t.value, ast.Attribute) and unparse(t.value.value) == "self")
+                            for t in n.targets)
+                        from_self = any(isinstance(x, ast.Attribute) and isinstance(x.value, ast.Name) and x.value.id == "self" for x in ast.walk(n.value)) \
+                            and not is_fresh_expr(n.value)
+                        if names and (stores_self or from_self):
+                            kept |= {t.id for t in names}
+                for r in ast.walk(m):
+                    if isinstance(r, ast.Return) and r.value is not None:
+                        if isinstance(r.value, ast.Name) and r.value.id in kept:
+                            res = True
+                        if isinstance(r.value, ast.Attribute) and unparse(r.value.value) == "self":
+                            res = True
+        _hands_out_cache[key] = res
+        if res:
+            return True
+    return False
 
 
 _shared_attr_cache: dict[ast.ClassDef, dict[str, str]] = {}
